@@ -369,3 +369,15 @@ pub proof fn lemma_stable_in_rep(fs: Seq<BF>, v: Seq<Term>)
     assert forall|i: int| 0 <= i < fs.len() implies #[trigger] fs[i](a) == a(i as usize) by { lemma_total_fix_is_model(fs, tv, i); }
 }
 pub proof fn lemma_const_eval() ensures forall|c: bool, a: Asg| #[trigger] bf_const(c)(a) == c { }
+// ---- support bound: a function that looks only at the variables below n (C05 two-valued mode, established by C09's from_parser)
+pub open spec fn agree_below(a: Asg, b: Asg, n: int) -> bool { forall|x: usize| (x as int) < n ==> #[trigger] a(x) == b(x) }
+pub open spec fn dep_below(f: BF, n: int) -> bool { forall|a: Asg, b: Asg| #[trigger] agree_below(a, b, n) ==> f(a) == f(b) }
+pub open spec fn all_dep_below(fs: Seq<BF>) -> bool { forall|i: int| 0 <= i < fs.len() ==> dep_below(#[trigger] fs[i], fs.len() as int) }
+pub proof fn lemma_dep_const(c: bool, n: int) ensures dep_below(bf_const(c), n) { }
+pub proof fn lemma_dep_var(v: usize, n: int) requires (v as int) < n, ensures dep_below(bf_var(v), n)
+{ assert forall|a: Asg, b: Asg| #[trigger] agree_below(a, b, n) implies bf_var(v)(a) == bf_var(v)(b) by { assert(a(v) == b(v)); } }
+pub proof fn lemma_dep_not(f: BF, n: int) requires dep_below(f, n), ensures dep_below(bf_not(f), n) { }
+pub proof fn lemma_dep_bin(f: BF, g: BF, n: int)
+    requires dep_below(f, n), dep_below(g, n),
+    ensures dep_below(bf_and(f, g), n), dep_below(bf_or(f, g), n), dep_below(bf_imp(f, g), n), dep_below(bf_iff(f, g), n), dep_below(bf_xor(f, g), n)
+{ }
